@@ -40,6 +40,7 @@ class Run:
         self.keep = keep_objects
         _patch_budget(self.rec, send_budget)
         self.rec.poke = self._poke
+        self.rec.allow_stop_iteration = not scenario.spec.get("any_async")
 
     # ------------------------------------------------------------------
     def execute(self):
